@@ -6,11 +6,16 @@ fn __o_concat2(a: &[Var], b: &[Var]) -> (r: Vec<Var>) ensures r@ == a@ + b@ { [a
 pub open spec fn cube_sat(neg: Seq<Var>, pos: Seq<Var>, a: Asg) -> bool {
     (forall|i: int| 0 <= i < neg.len() ==> !a((#[trigger] neg[i]).0)) && (forall|i: int| 0 <= i < pos.len() ==> a((#[trigger] pos[i]).0))
 }
+pub open spec fn lits_ok(nodes: Seq<BddNode>, tree: int, prefix: Seq<Var>, lits: Seq<Var>) -> bool {
+    forall|i: int| 0 <= i < lits.len() ==> prefix.contains(#[trigger] lits[i]) || supp(nodes, tree).contains(lits[i])
+}
 pub open spec fn cubes_ok(nodes: Seq<BddNode>, tree: int, goal: bool, goal_var: Var, neg: Seq<Var>, pos: Seq<Var>, r: Seq<(Vec<Var>, Vec<Var>)>) -> bool {
     // every cube refines the prefix
     &&& forall|k: int| 0 <= k < r.len() ==> forall|a: Asg| #[trigger] cube_sat((#[trigger] r[k]).0@, r[k].1@, a) ==> cube_sat(neg, pos, a)
     // pairwise disjoint
     &&& forall|k1: int, k2: int, a: Asg| 0 <= k1 < k2 < r.len() ==> !(#[trigger] cube_sat(r[k1].0@, r[k1].1@, a) && #[trigger] cube_sat(r[k2].0@, r[k2].1@, a))
+    // every literal of a cube comes from the prefix or is a variable the diagram depends on (a variable on the path)
+    &&& forall|k: int| 0 <= k < r.len() ==> lits_ok(nodes, tree, neg, (#[trigger] r[k]).0@) && lits_ok(nodes, tree, pos, r[k].1@)
     // where the goal variable has the goal value (and the prefix holds): covered  <==>  the diagram evaluates to the goal
     &&& forall|a: Asg| a(goal_var.0) == goal && #[trigger] cube_sat(neg, pos, a) ==> ((exists|k: int| 0 <= k < r.len() && cube_sat(r[k].0@, r[k].1@, a)) <==> den(nodes, tree)(a) == goal)
 }
@@ -19,6 +24,10 @@ pub proof fn lemma_cubes_term(nodes: Seq<BddNode>, t: int, goal: bool, gv: Var, 
     requires 0 <= t <= 1, if (t == 1) == goal { r.len() == 1 && r[0].0@ =~= neg && r[0].1@ =~= pos } else { r.len() == 0 },
     ensures cubes_ok(nodes, t, goal, gv, neg, pos, r)
 {
+    assert forall|k: int| 0 <= k < r.len() implies lits_ok(nodes, t, neg, (#[trigger] r[k]).0@) && lits_ok(nodes, t, pos, r[k].1@) by {
+        assert forall|i: int| 0 <= i < r[k].0@.len() implies neg.contains(#[trigger] r[k].0@[i]) by { assert(neg[i] == r[k].0@[i]); }
+        assert forall|i: int| 0 <= i < r[k].1@.len() implies pos.contains(#[trigger] r[k].1@[i]) by { assert(pos[i] == r[k].1@[i]); }
+    }
     assert forall|a: Asg| a(gv.0) == goal && #[trigger] cube_sat(neg, pos, a) implies ((exists|k: int| 0 <= k < r.len() && cube_sat(r[k].0@, r[k].1@, a)) <==> den(nodes, t)(a) == goal) by {
         lemma_den_term_eval(nodes, t, a);
         if (t == 1) == goal { assert(cube_sat(r[0].0@, r[0].1@, a)); }
@@ -49,6 +58,28 @@ pub proof fn lemma_cubes_node(nodes: Seq<BddNode>, t: int, goal: bool, gv: Var, 
     }
     assert forall|k: int| 0 <= k < r.len() implies forall|a: Asg| #[trigger] cube_sat((#[trigger] r[k]).0@, r[k].1@, a) ==> cube_sat(neg, pos, a) by {
         if k < nh { assert(r[k] == rh[k]); } else { assert(r[k] == rl[k - nh]); }
+    }
+    assert(guard(nodes, t)) by { assert(inner_ok(nodes, t)); }
+    assert(supp(nodes, t).contains(v));
+    assert forall|k: int| 0 <= k < r.len() implies lits_ok(nodes, t, neg, (#[trigger] r[k]).0@) && lits_ok(nodes, t, pos, r[k].1@) by {
+        let hi = nodes[t].hi.0 as int; let lo = nodes[t].lo.0 as int;
+        if k < nh {
+            assert(r[k] == rh[k]);
+            assert(lits_ok(nodes, hi, neg, rh[k].0@) && lits_ok(nodes, hi, pos.push(v), rh[k].1@));
+            assert forall|i: int| 0 <= i < r[k].0@.len() implies neg.contains(#[trigger] r[k].0@[i]) || supp(nodes, t).contains(r[k].0@[i]) by { }
+            assert forall|i: int| 0 <= i < r[k].1@.len() implies pos.contains(#[trigger] r[k].1@[i]) || supp(nodes, t).contains(r[k].1@[i]) by {
+                let x = r[k].1@[i];
+                if pos.push(v).contains(x) { let j = choose|j: int| 0 <= j < pos.push(v).len() && pos.push(v)[j] == x; if j < pos.len() { assert(pos[j] == x); } }
+            }
+        } else {
+            assert(r[k] == rl[k - nh]);
+            assert(lits_ok(nodes, lo, neg.push(v), rl[k - nh].0@) && lits_ok(nodes, lo, pos, rl[k - nh].1@));
+            assert forall|i: int| 0 <= i < r[k].1@.len() implies pos.contains(#[trigger] r[k].1@[i]) || supp(nodes, t).contains(r[k].1@[i]) by { }
+            assert forall|i: int| 0 <= i < r[k].0@.len() implies neg.contains(#[trigger] r[k].0@[i]) || supp(nodes, t).contains(r[k].0@[i]) by {
+                let x = r[k].0@[i];
+                if neg.push(v).contains(x) { let j = choose|j: int| 0 <= j < neg.push(v).len() && neg.push(v)[j] == x; if j < neg.len() { assert(neg[j] == x); } }
+            }
+        }
     }
     assert forall|k1: int, k2: int, a: Asg| 0 <= k1 < k2 < r.len() implies !(#[trigger] cube_sat(r[k1].0@, r[k1].1@, a) && #[trigger] cube_sat(r[k2].0@, r[k2].1@, a)) by {
         if k1 < nh { assert(r[k1] == rh[k1]); } else { assert(r[k1] == rl[k1 - nh]); }
